@@ -389,6 +389,72 @@ def rule_T2(ctx, rule: str = "T2") -> None:
             ctx.proved(rule, f"range[{t}]", loc)
 
 
+def _refinements(valuation: Dict[Sym, bool]) -> Dict[Sym, Tuple[float, float]]:
+    """interval constraints X in [lo, hi] implied by decided comparison atoms `X < c` / `c < X`"""
+    out: Dict[Sym, Tuple[float, float]] = {}
+    for k, v in valuation.items():
+        if k[0] == "op" and k[1] == "<" and len(k) == 4:
+            a, b = k[2], k[3]
+            if b[0] == "c" and isinstance(b[1], int) and a[0] != "c":
+                out[a] = (-INF, b[1] - 1) if v else (b[1], INF)
+            elif a[0] == "c" and isinstance(a[1], int) and b[0] != "c":
+                out[b] = (a[1] + 1, INF) if v else (-INF, a[1])
+        if k[0] == "op" and k[1] == "==" and len(k) == 4 and k[3][0] == "c" and isinstance(k[3][1], int) and v:
+            out[k[2]] = (k[3][1], k[3][1])
+    return out
+
+
+def rule_T2b(ctx, rule: str = "T2") -> None:
+    """two's-complement varint decoders map the valid wire ranges onto the type's value ranges"""
+    m = model(ctx)
+    mod = m.mod
+    loc = mod.loc(mod.func("Message._postprocess_single"))
+    for t, bits in (("int32", 32), ("enum", 32), ("int64", 64)):
+        half = 1 << (bits - 1)
+        cases = [("non-negative values", (0, half - 1), (0, half - 1)), ("negative values", ((1 << 64) - half, (1 << 64) - 1), (-half, -1))]
+        bad = None
+        unknown = None
+        for cname, wire_rng, want in cases:
+            for val, kind, d, ret in m.dec[(t, 0)]:
+                if kind == "raise" or ret is None:
+                    continue
+                ref = _refinements(val)
+
+                def env(s: Sym):
+                    base = wire_rng if s == m.dvalue else None
+                    if s in ref:
+                        b0 = base if base is not None else interval(s, lambda x: wire_rng if x == m.dvalue else None) if s != m.dvalue else wire_rng
+                        lo, hi = max(b0[0], ref[s][0]), min(b0[1], ref[s][1])
+                        return (lo, hi)
+                    return base
+
+                # infeasible path for this wire range (refinement empties an interval)?
+                feasible = True
+                for s_ in ref:
+                    iv = env(s_)
+                    if iv is not None and iv[0] > iv[1]:
+                        feasible = False
+                if not feasible:
+                    continue
+                iv = interval(ret, env)
+                if iv[0] in (INF, -INF) or iv[1] in (INF, -INF):
+                    unknown = f"{show(ret)} on {cname}"
+                    continue
+                if iv[0] < want[0] or iv[1] > want[1]:
+                    bad = (cname, ret, iv, want, val)
+        name = f"range-exact[{t}]"
+        if bad:
+            cname, ret, iv, want, val = bad
+            ctx.refuted(rule, name, f"{cname}:[{iv[0]:.0f},{iv[1]:.0f}]", loc,
+                        f"for {cname} of {t} (wire values in the valid two's-complement range) the decoder {show(ret)} under {val_text(val)} yields values in "
+                        f"[{iv[0]:.0f}, {iv[1]:.0f}], outside [{want[0]}, {want[1]}]: a boundary value is decoded to a different number",
+                        f"round-trip {t} = {want[1] if cname.startswith('non') else want[0]}")
+        elif unknown:
+            ctx.inconclusive(rule, name, f"decoder range not computable: {unknown}", loc)
+        else:
+            ctx.proved(rule, name, loc)
+
+
 def rule_W1(ctx) -> None:
     """wire / tag / struct tables equal the reference implementation's"""
     m = model(ctx)
